@@ -114,6 +114,8 @@ ActCases ==
   \cup {C("leaky_relu", <<s>>, [slope |-> sl], pat) : s \in ActShapes, sl \in {<<1, 100>>, <<1, 4>>, Q0}, pat \in {"S", "Z"}}
 SmShapes == UNION {[1..q -> {1, 2, 3}] : q \in 1..3}       \* (softmax of a 0-d tensor is not promised by the docstrings)
 SoftmaxCases == {C(op, <<s>>, [dim |-> d], "S") : op \in {"softmax", "log_softmax"}, s \in SmShapes, d \in (0 - 4)..3}
+                \* slices whose maxima are far apart (the stabilising shift is per slice)
+                \cup {C(op, <<s>>, [dim |-> d], "W") : op \in {"softmax", "log_softmax"}, s \in {<<2, 3>>, <<3, 3>>, <<3, 2, 2>>}, d \in (0 - 2)..2}
 
 LabelVecs(N, Cn) == [1..N -> 0..(Cn - 1)]
 Reductions == {"none", "mean", "sum", "functional"}
@@ -121,11 +123,15 @@ LossShapes == {<<>>, <<1>>, <<3>>, <<2, 2>>, <<2, 1, 2>>}
 LossCases ==
   {C("mse", <<s, s>>, [red |-> r], "A") : s \in LossShapes, r \in Reductions}
   \cup {C("mse", <<<<2, 2>>, <<2>>>>, [red |-> "mean"], "A"), C("mse", <<<<3>>, <<2>>>>, [red |-> "none"], "A")}
+  \* prediction and target of different shapes (equal sizes included): rejected, never broadcast; operands untouched
+  \cup {C(op, <<q[1], q[2]>>, [red |-> r], IF op = "mse" THEN "A" ELSE "U") : op \in {"mse", "bce", "bcelogits"}, r \in {"mean", "functional"},
+           q \in {<<<<3, 1>>, <<3>>>>, <<<<3>>, <<3, 1>>>>, <<<<2, 2>>, <<2>>>>, <<<<2, 2>>, <<4>>>>, <<<<3>>, <<2>>>>}}
   \cup {C("bce", <<s, s>>, [red |-> r], "U") : s \in LossShapes, r \in Reductions}
   \cup {C("bcelogits", <<s, s>>, [red |-> r], "S") : s \in LossShapes, r \in Reductions}
   \cup UNION {{C(op, <<<<q[1], q[2]>>>>, [red |-> r, labels |-> lab], "S") : lab \in LabelVecs(q[1], q[2]), r \in Reductions, op \in {"nll", "ce"}}
               : q \in {<<1, 2>>, <<2, 2>>, <<2, 3>>, <<3, 2>>}}
   \cup {C(op, <<<<2, 2>>>>, [red |-> "mean", labels |-> <<0, 2>>], "S") : op \in {"nll", "ce"}}
+  \cup {C("ce", <<<<3, 3>>>>, [red |-> r, labels |-> lab], "W") : lab \in {<<0, 1, 2>>, <<2, 2, 0>>}, r \in {"none", "mean"}}
 
 BnShapes == {<<2, 1>>, <<2, 2>>, <<3, 2>>, <<2, 2, 2>>, <<1, 2, 3>>, <<2, 1, 1, 2>>, <<1, 2, 2, 2>>}
 BnCases ==
